@@ -18,6 +18,10 @@
 (* GPUs per node, hardware threads per core, numbers of blocked cores and  *)
 (* GPUs); a pilot size is [nodes, cores, gpus, backup, smt] (smt = 0: the  *)
 (* platform's value, else $RADICAL_SMT).                                   *)
+(*                                                                         *)
+(* (c) Launcher side.  Which pilot launcher (PSI_J, SAGA) takes the pilots *)
+(* of a resolved (platform, schema), and what of a pilot's job description *)
+(* the launcher's interface carries to the batch system.                   *)
 (***************************************************************************)
 EXTENDS Integers, Sequences, FiniteSets
 
@@ -94,6 +98,35 @@ AgentAgrees(p, s, o) ==
   /\ o.agent.nodes + o.agent.backup = o.jd.nodes /\ o.agent.backup = s.backup
   /\ o.agent.cores = o.jd.cpus /\ o.agent.gpus = o.jd.gpus
   /\ o.agent.cpn = CpnT(p, s) /\ o.agent.gpn = p.gpn
+
+(* ---- (c) the launcher side: which launcher, what the job requests ----------- *)
+(* pmgr/launching/base.py asks its launchers in the order it constructed them  *)
+(* (PSI_J before SAGA, each only if its optional module is installed) and      *)
+(* takes the first which can_launch() the resolved resource configuration.     *)
+(* `parts` = the "+"-separated parts of the job manager endpoint's URL scheme  *)
+(* ("slurm+ssh://host" -> <<"slurm", "ssh">>), X = the executors psij knows.   *)
+\* PilotLauncherPSIJ._get_schema: exactly one part besides ssh / gsissh names the
+\* batch system ("" = PSI/J cannot handle the endpoint)
+PsijName(parts) ==
+  LET r == SelectSeq(parts, LAMBDA x : x \notin {"ssh", "gsissh"})
+  IN IF Len(r) # 1 THEN ""
+     ELSE IF r[1] = "pbspro" THEN "pbs" ELSE IF r[1] = "fork" THEN "local" ELSE r[1]
+
+CanLaunch(l, parts, X) == IF l = "PSI_J" THEN PsijName(parts) \in X ELSE l = "SAGA"
+
+\* the launcher a pilot goes to ("none": no installed launcher can take it)
+Pick(lset, parts, X) ==
+  LET ok == SelectSeq(lset, LAMBDA l : CanLaunch(l, parts, X))
+  IN IF Len(ok) = 0 THEN "none" ELSE ok[1]
+
+\* figures of the job description which the launcher's interface to the batch
+\* system carries: PSI/J ResourceSpecV1(node_count, process_count); SAGA derives
+\* the node count itself from total_cpu_count / processes_per_host
+Conveys(l) == IF l = "PSI_J" THEN {"nodes", "cpus"} ELSE {"cpus", "gpus", "pph"}
+
+\* the submitted job `sub` requests what _prepare_pilot computed for this pilot (`jd`)
+SubmitSized(l, sub, jd) == \A f \in Conveys(l) : sub[f] = jd[f]
+SubmitTerms(sub, own)   == sub.walltime = own.walltime /\ sub.queue = own.queue /\ sub.project = own.project
 
 \* pilot sizes around multiples of the node size
 CoreSizes(a, ks) == {x \in {k * a + d : k \in ks, d \in {-1, 0, 1}} : x >= 1}
